@@ -56,8 +56,8 @@ var fCogroup = bigslice.Func(func() bigslice.Slice {
 // fold: one shuffle, accumulation in a hash map (output order of a task is
 // not fixed).
 var fFold = bigslice.Func(func() bigslice.Slice {
-	s := bigslice.Const(2, seq(36), seq(36))
-	s = bigslice.Map(s, func(k, v int) (int, int) { return k % 24, v })
+	s := bigslice.Const(2, seq(60), seq(60))
+	s = bigslice.Map(s, func(k, v int) (int, int) { return k % 40, v })
 	return bigslice.Fold(s, func(acc int, v int) int { return acc + v })
 })
 
